@@ -137,8 +137,11 @@ Fixpoint restore_runs (prs : list prun) (seen : list uuid) (acc : list run) : re
       end
   end.
 
-(* the per-call fields of a session made by readSession: batchStart false, currentResume nil, parentRun nil *)
-Definition transient_after_read : transient := {| t_batch := false; t_resume := None; t_parent := false |}.
+(* the per-call fields of a session made by readSession: batchStart false, currentResume nil, parentRun loaded from the trigger
+   (since goflow f4c75dd readSession calls prepareForSprint: the parent run of a flow_action trigger is loaded when the
+   session is read, no longer at the next Resume) *)
+Definition transient_after_read (t : trigger) : transient :=
+  {| t_batch := false; t_resume := None; t_parent := is_flow_action t |}.
 
 Definition restore (p : psession) : restored live :=
   match restore_runs (ps_runs p) [] [] with
@@ -148,7 +151,7 @@ Definition restore (p : psession) : restored live :=
         {| lv_core := {| s_status := ps_status p; s_type := ps_type p; s_trigger := ps_trigger p; s_flow := ps_trigger_flow p;
                          s_runs := rs; s_input := ps_input p; s_pushed := None |};
            lv_batch_trigger := ps_trigger_batch p;
-           lv_tr := transient_after_read |}
+           lv_tr := transient_after_read (ps_trigger p) |}
   end.
 
 (* ---- engine calls on the Go session --------------------------------------------------------------------------- *)
@@ -235,7 +238,7 @@ Fixpoint run_resumes (a : assets) (tmo : text) (lv : live) (ops : list (bool * r
   | (restart, r) :: rest =>
       let lv0 := if restart then restore (persist lv) else Restored lv in
       match lv0 with
-      | RestoreError i => [{| o_outcome := ORestoreError i; o_context := transient_after_read |}]
+      | RestoreError i => [{| o_outcome := ORestoreError i; o_context := transient_after_read (s_trigger (lv_core lv)) |}]
       | Restored lv1 =>
           let '(res, tr) := live_resume a lv1 r tmo in
           {| o_outcome := outcome_of (lv_batch_trigger lv1) res tr; o_context := tr |} ::
